@@ -47,6 +47,11 @@ inductive Violation where
   | findNameNothingPending (owner fn : Nat) (got : Int)
   | findNameAnswer (owner fn : Nat) (got : Int) (pending : List Int)
   | infoMismatch (missing extra : List (Nat × Nat × Int))
+  /-- mud_status(): "current length" is not the number of pending call_outs (`lo ≤ len ≤ hi` expected) -/
+  | usageLength (len lo hi : Nat)
+  /-- mud_status(): the number of allocated structures is not a whole number of chunks, is smaller than the number
+      in use, or exceeds what the largest number ever in use (`hwm`) required (a structure was leaked) -/
+  | usageAllocated (numCall len hwm : Nat)
   | crash (line : String)
   | memoryError (line : String)
   | unexpectedLine (line : String)
@@ -188,8 +193,45 @@ def judgeStep (s : JState) (ev : Ev) : JState :=
   | .malformed line => s.flag (.malformed line)
   | .unexpected line => s.flag (.unexpectedLine line)
 
-/-- violations found on a history, oldest first; `[]` = property held on this history -/
-def judgeEv (evs : List Ev) : List Violation :=
+/-- violations of the clauses about firing / answers / call_out_info, oldest first -/
+def judgeCore (evs : List Ev) : List Violation :=
   (evs.foldl judgeStep {}).bad.reverse
+
+/-! ### bookkeeping clause: print_call_out_usage (free list, `num_call`, "current length")
+
+The oracle still knows nothing about the wheel: it counts its own pending set.  `hwm` is the largest number of
+`pending_call_t` structures that can have been in use at any moment so far (pending ones, plus the one being executed
+while call_out() runs).  Structures are allocated `chunkSize` at a time, only when none is free, and never returned:
+so `num_call` is a multiple of `chunkSize`, at least the number in use now, and less than `hwm + chunkSize`
+(anything more means a structure was not given back to the free list). -/
+
+structure UState where
+  j : JState := {}
+  hwm : Nat := 0
+  ubad : List Violation := []                        -- newest first
+
+/-- entries the oracle still lists that the driver may already have dropped: destructed owner, time has come -/
+def maybeDropped (j : JState) (t : Int) (e : Pend) : Bool := isDeadJ j e.owner && decide (e.due ≤ t)
+
+def usageStep (u : UState) (ev : Ev) : UState :=
+  let j := judgeStep u.j ev
+  let tick : Nat := if j.inTick then 1 else 0
+  let hwm := max u.hwm (j.pend.length + tick)
+  match ev with
+  | .usage t n len =>
+    let lo := (j.pend.filter (fun e => !maybeDropped j t e)).length
+    let b1 := if lo ≤ len ∧ len ≤ j.pend.length then u.ubad else .usageLength len lo j.pend.length :: u.ubad
+    -- inside call_out() a usage line can only come from a callback: its own structure is in use but not in a list
+    let b2 := if n % Gen.C10.chunkSize = 0 ∧ len + tick ≤ n ∧ n < hwm + Gen.C10.chunkSize then b1
+              else .usageAllocated n len hwm :: b1
+    { j := j, hwm := hwm, ubad := b2 }
+  | _ => { j := j, hwm := hwm, ubad := u.ubad }
+
+def judgeUsage (evs : List Ev) : List Violation :=
+  (evs.foldl usageStep {}).ubad.reverse
+
+/-- violations found on a history (core clauses first, then the bookkeeping clause); `[]` = property held -/
+def judgeEv (evs : List Ev) : List Violation :=
+  judgeCore evs ++ judgeUsage evs
 
 end NV.C10
